@@ -108,11 +108,29 @@ static void yv_lset_del (void *p)
   for (j = (h + 1) % YV_LSZ; (q = yv_lset[j]) != NULL; j = (j + 1) % YV_LSZ)
     { yv_lset[j] = NULL; yv_lset_find (q, 1); }
 }
+#include <execinfo.h>
+static void *yv_fail_bt[12];	/* return addresses at the moment the failure was injected */
+static int yv_fail_bt_n;
 static int yv_should_fail (void)
 {
   yv_lib_allocs++;
   if (yv_fail_at > 0 && (yv_lib_allocs == yv_fail_at || (yv_fail_sticky && yv_lib_allocs > yv_fail_at)))
-    return 1;
+    {
+      if (yv_lib_allocs == yv_fail_at)
+	{
+	  int save = yv_in_lib, i, n;
+	  char buf[512];
+	  yv_in_lib = 0;
+	  yv_fail_bt_n = backtrace (yv_fail_bt, 12);
+	  n = snprintf (buf, sizeof buf, "{\"k\":\"inject\",\"bt\":[");
+	  for (i = 0; i < yv_fail_bt_n && n < 480; i++) n += snprintf (buf + n, sizeof buf - n, "%s\"%p\"", i ? "," : "", yv_fail_bt[i]);
+	  n += snprintf (buf + n, sizeof buf - n, "]}\n");
+	  fflush (stdout);
+	  if (write (1, buf, n) < 0) {}
+	  yv_in_lib = save;
+	}
+      return 1;
+    }
   return 0;
 }
 #ifdef __cplusplus
